@@ -271,7 +271,10 @@ func RunConc(sc *ConcScenario, want Want) *ConcResult {
 		ph := &sc.Phases[pi]
 		if ph.Advance != 0 {
 			sim.Advance(ph.Advance, false, 0)
+			res.probe("clock_advances", 1)
 		}
+		res.probe("phases", 1)
+		res.probe("tasks", len(ph.Tasks))
 		now := sim.Now()
 		// entries whose expiration instant has passed are absent from now on
 		for k, ks := range state {
